@@ -13,3 +13,16 @@ def obligations(tier):
                "script with one comment (kind fixed, position and text symbolic) and a last line of 5 kinds (symbolic): parse_data() twice on the "
                "same object - second result equals the first, first result object unchanged")
             for i, k in enumerate(KINDS)]
+
+
+def solver_queries(tier, scratch):
+    """C14.hash: the LALR tables generated under different hash seeds are the same tables."""
+    from props.c20 import _record
+    from vf import lr
+    base = lr.gen_tables(scratch, 0)
+    out = []
+    for seed in ([1] if tier == "quick" else [1, 2, 3, 7]):
+        other = lr.gen_tables(scratch, seed)
+        out.append(_record(f"C14.hash/seed{seed}", lr.differ(base, other, "seed0", f"seed{seed}"),
+                           f"fresh LALR generation under PYTHONHASHSEED=0 vs {seed}: every action, goto and production"))
+    return out
